@@ -77,7 +77,7 @@ def multi(prop, tier, seed, legs, as_leg):
             unlisted = []
             for cs in cases:
                 txt = json.dumps(cs, sort_keys=True)
-                hit = [k for k in known if k.get('match') and k['match'] in txt]
+                hit = [k for k in known if k.get('match') and all(m in txt for m in (k['match'] if isinstance(k['match'], list) else [k['match']]))]
                 if hit:
                     print('KNOWN-FINDING: property=%s %s %s' % (prop, hit[0]['obligation'], hit[0]['what']))
                 else:
@@ -158,7 +158,7 @@ def main():
             unlisted = []
             for cs in cases:
                 txt = json.dumps(cs, sort_keys=True)
-                hit = [k for k in known if k.get('match') and k['match'] in txt]
+                hit = [k for k in known if k.get('match') and all(m in txt for m in (k['match'] if isinstance(k['match'], list) else [k['match']]))]
                 if hit:
                     print('KNOWN-FINDING: property=%s %s %s' % (prop, hit[0]['obligation'], hit[0]['what']))
                 else:
